@@ -353,7 +353,8 @@ where
     I::Token: TokCode,
 {
     fn merge(mut self, other: Self) -> Self {
-        self.merges = self.merges.wrapping_add(1);
+        // additive, so that the count of merged contributions does not depend on association order
+        self.merges = self.merges.wrapping_add(1).wrapping_add(other.merges);
         self.merged_id = other.id;
         self
     }
@@ -421,7 +422,8 @@ pub struct VS {
 }
 impl<'a, I: Input<'a>> Error<'a, I> for VS {
     fn merge(mut self, other: Self) -> Self {
-        self.merges = self.merges.wrapping_add(1);
+        // additive, so that the count of merged contributions does not depend on association order
+        self.merges = self.merges.wrapping_add(1).wrapping_add(other.merges);
         self.merged_id = other.id;
         self
     }
@@ -455,6 +457,7 @@ pub trait VE: Copy + 'static {
     const ZST: bool;
     fn mk(id: u16, start: usize, end: usize) -> Self;
     fn id(&self) -> u16;
+    fn merges(&self) -> u8;
     fn verr(&self) -> Option<VErr>;
 }
 impl VE for VErr {
@@ -464,6 +467,9 @@ impl VE for VErr {
     }
     fn id(&self) -> u16 {
         self.id
+    }
+    fn merges(&self) -> u8 {
+        self.merges
     }
     fn verr(&self) -> Option<VErr> {
         Some(*self)
@@ -477,6 +483,9 @@ impl VE for VS {
     fn id(&self) -> u16 {
         self.id
     }
+    fn merges(&self) -> u8 {
+        self.merges
+    }
     fn verr(&self) -> Option<VErr> {
         None
     }
@@ -487,6 +496,9 @@ impl VE for VZ {
         VZ
     }
     fn id(&self) -> u16 {
+        0
+    }
+    fn merges(&self) -> u8 {
         0
     }
     fn verr(&self) -> Option<VErr> {
@@ -628,6 +640,9 @@ pub struct AnyP<I, E> {
     pub progress: bool,
     /// stub may leave an offer behind even when it succeeds
     pub ok_offers: bool,
+    /// number of consecutive log entries reserved for successive calls of this stub (1 = a single
+    /// entry that counts its calls)
+    pub span: usize,
     pub _p: core::marker::PhantomData<fn(I, E)>,
 }
 impl<I, E> Clone for AnyP<I, E> {
@@ -641,6 +656,17 @@ pub fn anyp<I, E>(slot: usize) -> AnyP<I, E> {
         slot,
         progress: false,
         ok_offers: true,
+        span: 1,
+        _p: core::marker::PhantomData,
+    }
+}
+/// A stub that is invoked up to `span` times, logging call k in slot `slot + k`.
+pub fn anyp_multi<I, E>(slot: usize, span: usize) -> AnyP<I, E> {
+    AnyP {
+        slot,
+        progress: false,
+        ok_offers: true,
+        span,
         _p: core::marker::PhantomData,
     }
 }
@@ -649,6 +675,7 @@ pub fn anyp_prog<I, E>(slot: usize) -> AnyP<I, E> {
         slot,
         progress: true,
         ok_offers: true,
+        span: 1,
         _p: core::marker::PhantomData,
     }
 }
@@ -694,8 +721,17 @@ where
         }
         let clock = inp.state.clock;
         inp.state.clock = clock.wrapping_add(1);
-        let prev = inp.state.log[self.slot];
-        inp.state.log[self.slot] = CallLog {
+        // log entry of this call: the first unused one of the reserved span, else the last (counting)
+        let mut idx = self.slot;
+        let mut k = 1;
+        while k < self.span {
+            if inp.state.log[idx].called && idx + 1 < SLOTS {
+                idx += 1;
+            }
+            k += 1;
+        }
+        let prev = inp.state.log[idx];
+        inp.state.log[idx] = CallLog {
             called: true,
             calls: prev.calls.wrapping_add(1),
             order: clock,
@@ -801,6 +837,8 @@ pub struct Snap {
     pub nsec: usize,
     pub sec: [u16; SECMAX],
     pub alt: Option<(usize, u16)>,
+    /// number of merges that produced the pending error
+    pub alt_merges: u8,
 }
 pub fn snap<'p, I, Er, C>(inp: &mut InputRef<'static, 'p, I, X<Er, C>>) -> Snap
 where
@@ -828,6 +866,7 @@ where
         nsec: n,
         sec,
         alt: inp.errors.alt.as_ref().map(|a| (a.pos, a.err.id())),
+        alt_merges: inp.errors.alt.as_ref().map(|a| a.err.merges()).unwrap_or(0),
     }
 }
 pub fn lg<'p, I, Er, C>(inp: &mut InputRef<'static, 'p, I, X<Er, C>>, slot: usize) -> CallLog
@@ -978,6 +1017,90 @@ pub fn prim_alt_spec(s0: &S0, alt: Option<(usize, VErr)>, tok_here: Option<u32>)
                     e.found == tok_here,
                 )
             }
+        }
+    }
+}
+
+/// The failures offered during a run, as (position, error id): the error pending at entry, the offers
+/// of the children (from their logs) and errors offered by the combinator itself. The specification of
+/// the pending error (C06): it sits at the furthest offered position, it is one of the errors offered
+/// there, and every other error offered there has been merged into it (merge order is not prescribed).
+pub const OFFERS: usize = 6;
+#[derive(Clone, Copy)]
+pub struct Offers {
+    pub n: usize,
+    pub o: [(usize, u16); OFFERS],
+}
+impl Offers {
+    pub fn none() -> Offers {
+        Offers { n: 0, o: [(0, 0); OFFERS] }
+    }
+    pub fn entry(s0: &S0) -> Offers {
+        match s0.alt {
+            Some((p, i)) => Offers::none().at(p, i),
+            None => Offers::none(),
+        }
+    }
+    pub fn of(s0: &S0, ls: &[&CallLog]) -> Offers {
+        let mut o = Offers::entry(s0);
+        let mut k = 0;
+        while k < ls.len() {
+            o = o.log(ls[k]);
+            k += 1;
+        }
+        o
+    }
+    pub fn at(mut self, pos: usize, id: u16) -> Offers {
+        if self.n < OFFERS {
+            self.o[self.n] = (pos, id);
+        }
+        self.n += 1;
+        self
+    }
+    pub fn log(self, l: &CallLog) -> Offers {
+        if l.called && l.offered {
+            self.at(l.fail_pos, l.fail_id)
+        } else {
+            self
+        }
+    }
+    pub fn max_pos(&self) -> Option<usize> {
+        let mut m: Option<usize> = None;
+        let mut k = 0;
+        while k < OFFERS {
+            if k < self.n {
+                let p = self.o[k].0;
+                m = match m {
+                    Some(q) if q >= p => Some(q),
+                    _ => Some(p),
+                };
+            }
+            k += 1;
+        }
+        m
+    }
+    pub fn matches(&self, s: &Snap) -> bool {
+        if self.n > OFFERS {
+            return false;
+        }
+        match (self.max_pos(), s.alt) {
+            (None, None) => true,
+            (Some(m), Some((p, id))) => {
+                let mut cnt = 0usize;
+                let mut member = false;
+                let mut k = 0;
+                while k < OFFERS {
+                    if k < self.n && self.o[k].0 == m {
+                        cnt += 1;
+                        if self.o[k].1 == id {
+                            member = true;
+                        }
+                    }
+                    k += 1;
+                }
+                p == m && member && s.alt_merges as usize == cnt - 1
+            }
+            _ => false,
         }
     }
 }
